@@ -287,7 +287,13 @@ func vfCleanupShared() {
 
 type vfAccessLogger struct{ w *vfWorld }
 
-func (l vfAccessLogger) Log(rec instrumentedwriter.LogRecord) { l.w.logs = append(l.w.logs, rec) }
+var vfLogMu sync.Mutex
+
+func (l vfAccessLogger) Log(rec instrumentedwriter.LogRecord) {
+	vfLogMu.Lock()
+	l.w.logs = append(l.w.logs, rec)
+	vfLogMu.Unlock()
+}
 
 func vfNewWorld(o vfOpts) *vfWorld {
 	vfFixtures()
